@@ -98,6 +98,9 @@ func (in *Interp) protoIntercept(fn *ssa.Function, args []Value, pos token.Pos) 
 	if !isPbGo(in, fn) {
 		return nil, false
 	}
+	for i := range args {
+		args[i] = in.resolve(args[i])
+	}
 	self := args[0]
 	content := func() Value {
 		if p, ok := self.(*Value); ok {
@@ -168,7 +171,11 @@ func (in *Interp) opaqueMethod(op *Opaque, name string, pos token.Pos) Value {
 			return mk(func(in *Interp, a []Value, pos token.Pos) Value { return in.kvGet(kv, a[1].(Slice).V, pos) })
 		case "Has":
 			return mk(func(in *Interp, a []Value, pos token.Pos) Value {
-				return BoolConst(in.kvFind(kv, a[1].(Slice).V) >= 0)
+				i := in.kvFind(kv, a[1].(Slice).V)
+				if i < 0 {
+					return False
+				}
+				return kv.cells[i].presentT()
 			})
 		case "Set":
 			return mk(func(in *Interp, a []Value, pos token.Pos) Value {
@@ -193,10 +200,10 @@ func (in *Interp) opaqueMethod(op *Opaque, name string, pos token.Pos) Value {
 		it := op.Data.(*kvIter)
 		switch name {
 		case "Valid":
-			return mk(func(in *Interp, a []Value, pos token.Pos) Value { return BoolConst(it.pos < len(it.items)) })
+			return mk(func(in *Interp, a []Value, pos token.Pos) Value { return it.validT() })
 		case "Next":
 			return mk(func(in *Interp, a []Value, pos token.Pos) Value {
-				if it.pos >= len(it.items) {
+				if !in.settle(it) {
 					in.goPanic(pos, "iterator is invalid", nil)
 				}
 				it.pos++
@@ -204,7 +211,7 @@ func (in *Interp) opaqueMethod(op *Opaque, name string, pos token.Pos) Value {
 			})
 		case "Key":
 			return mk(func(in *Interp, a []Value, pos token.Pos) Value {
-				if it.pos >= len(it.items) {
+				if !in.settle(it) {
 					in.goPanic(pos, "iterator is invalid", nil)
 				}
 				k := it.items[it.pos].key
@@ -214,7 +221,7 @@ func (in *Interp) opaqueMethod(op *Opaque, name string, pos token.Pos) Value {
 			})
 		case "Value":
 			return mk(func(in *Interp, a []Value, pos token.Pos) Value {
-				if it.pos >= len(it.items) {
+				if !in.settle(it) {
 					in.goPanic(pos, "iterator is invalid", nil)
 				}
 				return DeepCopy(it.items[it.pos].val)
